@@ -302,3 +302,71 @@ specialise(
     bounds="already-tokenised CSV rows (csv.reader itself is C code)",
     weight=40,
 )
+
+
+# ---- f: delivery channel (path vs in-memory) ------------------------------------------------------
+import pathlib as _pl  # noqa: E402
+
+_MD = "| survey |\n| | type | name | label |\n| | text | q1 | L |\n"
+_FS = {}
+
+
+class _FakePath(_pl.PurePosixPath):
+    """environment model: a path object whose file content comes from an in-memory table"""
+
+    def is_file(self):
+        return str(self) in _FS
+
+    def read_bytes(self):
+        return _FS[str(self)]
+
+
+SUFFIXES = [".md", ".MD", ".txt", "", ".Md", ".markdown"]
+
+
+def c12_delivery(kind: int, sfx: int, s0: int, s1: int) -> bool:
+    """
+    vpre: 0 <= sfx <= 5
+    vpre: (97 <= s0 <= 122 or 65 <= s0 <= 90) and (97 <= s1 <= 122 or 48 <= s1 <= 57 or s1 == 95)
+    vpost: _ == True
+    """
+    import io
+
+    stem = S(s0, s1)
+    path = "/forms/" + stem + SUFFIXES[sfx]
+    _FS.clear()
+    _FS[path] = _MD.encode("utf-8")
+    real = B.Path
+    B.Path = _FakePath
+    try:
+        if kind == 0:
+            dd = B.get_xlsform(path)
+            want_stem = stem
+        elif kind == 1:
+            dd = B.get_xlsform(_MD.encode("utf-8"))
+            want_stem = None
+        elif kind == 2:
+            dd = B.get_xlsform(io.BytesIO(_MD.encode("utf-8")))
+            want_stem = None
+        else:
+            dd = B.get_xlsform(_MD)  # text that is not an existing path
+            want_stem = None
+    finally:
+        B.Path = real
+    if dd.fallback_form_name != want_stem:
+        return False
+    return dd.survey == [{"type": "text", "name": "q1", "label": "L"}] and dd.sheet_names == ["survey"]
+
+
+specialise(
+    "C12",
+    "f.delivery",
+    c12_delivery,
+    {"kind": [0, 1, 2, 3]},
+    timeout=300,
+    kernel=("pyxform.xls2json_backends:get_definition_data", "pyxform.xls2json_backends:definition_to_dict", "pyxform.xls2json_backends:get_xlsform"),
+    shims=("S7-path",),
+    symbolic="file stem of 2 symbolic characters and the file suffix (symbolic index over .md, .MD, .txt, none, .Md, .markdown)",
+    bounds="delivery channel fixed per instance: path (in-memory file table behind pathlib), bytes, BytesIO, text; Markdown content concrete",
+    weight=30,
+)
